@@ -52,3 +52,45 @@ Fixpoint failing_from (i : nat) (cs : list case) : list (nat * nat) :=
                       end
   end.
 Definition failing (cs : list case) : list (nat * nat) := failing_from 0 cs.
+
+(** C16 layout: registers are the leaves of the whole state dict; resets are not part of these
+    cases, so the stored initial values are not observed (third component ignored). *)
+Definition obs_eqb16 (a b : obs) : bool :=
+  let '(a1, a2, _) := a in let '(b1, b2, _) := b in all_eqb a1 b1 && all_eqb a2 b2.
+Fixpoint first_diff16 (w : world) (k : nat) (l : list (list op * obs)) : nat :=
+  match l with
+  | [] => 0
+  | (ops, o) :: t => let w' := execs true true w ops in
+                     if obs_eqb16 (observe w') o then first_diff16 w' (S k) t else S k
+  end.
+Fixpoint failing16_from (i : nat) (cs : list case) : list (nat * nat) :=
+  match cs with
+  | [] => []
+  | (vals, l) :: t => match first_diff16 (construct vals) 0 l with
+                      | O => failing16_from (S i) t
+                      | S k => (i, k) :: failing16_from (S i) t
+                      end
+  end.
+Definition failing16 (cs : list case) : list (nat * nat) := failing16_from 0 cs.
+
+(** C19, parallel tempering with reset_after_swap: (levels, decisions hottest pair first,
+    observed swap_index, observed list of reset levels) *)
+From Epsie Require Machine.
+Definition sweep_idx := Machine.sweep_idx.
+Definition reset_levels := Machine.reset_levels.
+Definition rcase := (nat * list bool * list nat * list nat)%type.
+Fixpoint nats_eqb (a b : list nat) : bool :=
+  match a, b with
+  | [], [] => true
+  | x :: a', y :: b' => Nat.eqb x y && nats_eqb a' b'
+  | _, _ => false
+  end.
+Fixpoint failing_reset_from (i : nat) (cs : list rcase) : list nat :=
+  match cs with
+  | [] => []
+  | (n, ds, idx, rs) :: t =>
+      let m := sweep_idx (n - 1) (seq 0 n) ds in
+      if nats_eqb m idx && nats_eqb (reset_levels m) rs then failing_reset_from (S i) t
+      else i :: failing_reset_from (S i) t
+  end.
+Definition failing_reset (cs : list rcase) : list nat := failing_reset_from 0 cs.
